@@ -14,6 +14,10 @@ claimed = {
    text="Proof that OpEqual passes exactly the options under which go-cmp's documented behaviour is total structural equality with nil == empty slices, and that OpNotEqual is its negation. The contract of cmp.Equal is an assumption (go-cmp is a dependency, not code of this repository); the thorough tier validates it on a bounded universe of first-order values and says so."),
  "C14": dict(design="§4 C14", technique="contract-based deductive verification: finite-map contracts with a map heap and an assumed each-entry-once enumeration for dict, SMT-string definitions for strings, ghost buffer contents for buf, callback call traces for frt.Pipe/IfElse/IfOnly, no-panic of toS against assumed reflect preconditions; VCs discharged by z3/cvc5",
    text="Proof of the functional contract of every function of pkg/dict, pkg/strings, pkg/buf and of the frt helpers named in the statement, for all arguments; standard-library functions (strings.*, fmt.Sprintf fragment, reflect.Value accessors, bytes.Buffer, map range) enter as assumed contracts listed in the evidence."),
+ "C15": dict(design="§4 C15", technique="contract-based deductive verification of the generated Go (front end B: β-reduction of closures at frt combinators, callee contracts for pkg/slice, pkg/strings, pkg/buf): FTypeToGo and its 9 helpers against the specification function go_type axiomatised from the documentation; VCs over SMT strings discharged by z3/cvc5",
+   text="Proof (printer half) that FTypeToGo and its helpers emit, for every FType value, exactly the Go type text the documentation defines (go_type in specs/types.spec). The parser half (parseType builds the FType the grammar prescribes) is not decided and the evidence says so."),
+ "C16": dict(design="§4 C16", technique="contract-based deductive verification: loop variants and progress/extent postconditions on every scanner and tokenizer loop of fc/wrapper.go over byte-array strings, VCs discharged by z3/cvc5; counterexample (byte string, position) read from the model with get-value and replayed on the real scanner with a wall-clock bound",
+   text="Partial: proof that every scanner/tokenizer loop of wrapper.go terminates and makes progress on every byte string and keeps token extents inside the buffer. Termination of the recursive-descent parser and of type inference is not decided (two known non-terminating inputs are listed as findings in DESIGN.md)."),
 }
 na = {
  "C01": "whole-compiler semantic preservation needs a formal semantics of Folang and of Go plus a simulation proof through tokenizer, parser, inference and emitter; no function-level contract expresses it (DESIGN §5). Its run-time ingredients are decided under C10, C12-C14.",
